@@ -64,16 +64,27 @@ Proof.
 Qed.
 
 (* ---------- HTTP: status codes without a body ---------- *)
+Lemma memb_app_agree c a b : memb c (a ++ b) = memb c a || memb c b.
+Proof.
+  induction a as [|x a IH]; cbn [app memb]; [reflexivity|]. rewrite IH. apply orb_assoc.
+Qed.
+
+Lemma memb_range c a n : memb c (map N.of_nat (seq a n)) = (N.of_nat a <=? c) && (c <? N.of_nat (a + n)).
+Proof.
+  revert a. induction n as [|n IH]; intros a; cbn [seq map memb].
+  - lia.
+  - rewrite IH. destruct (N.eqb_spec (N.of_nat a) c); lia.
+Qed.
+
+(* the generated set is the range 100..199 followed by 204 and 304 (a syntactic fact about Gen/Consts.v,
+   re-checked whenever it is regenerated) *)
+Lemma gen_no_content_shape : gen_no_content_codes = map N.of_nat (seq 100 100) ++ [204; 304].
+Proof. reflexivity. Qed.
+
 Theorem http_no_content_codes_agree : forall c, no_content_code c = memb c gen_no_content_codes.
 Proof.
-  intros c. destruct (c <? 1000) eqn:E.
-  - assert (H : forallb (fun k => Bool.eqb (no_content_code k) (memb k gen_no_content_codes)) (map N.of_nat (seq 0 1000)) = true)
-      by (vm_compute; reflexivity).
-    rewrite forallb_forall in H. apply eqb_prop. apply H. apply in_map_iff. exists (N.to_nat c). split; [lia|]. apply in_seq. lia.
-  - assert (A : no_content_code c = false) by (unfold no_content_code, PyText.in_range; lia).
-    rewrite A. destruct (memb c gen_no_content_codes) eqn:M; [|reflexivity].
-    assert (H : forallb (fun k => k <? 1000) gen_no_content_codes = true) by (vm_compute; reflexivity).
-    rewrite (memb_forallb_in c _ _ M H) in E. discriminate.
+  intros c. rewrite gen_no_content_shape, memb_app_agree, memb_range.
+  unfold no_content_code, in_range. cbn [memb]. lia.
 Qed.
 
 (* ---------- web processor: status-code classes; redirect tracker: code lists ---------- *)
